@@ -76,13 +76,21 @@ def r03_3(ctx):
         for d in ds:
             if d.kind == "assign" and is_call_to(d.value, "sym") and d.value.args and isinstance(d.value.args[0], ast.Constant) and isinstance(d.value.args[0].value, str):
                 lab.setdefault(d.value.args[0].value, nm)
+    dnode, data = dict_literal(f, "data", n)
+    if data is None:
+        raise AnalysisError("intg_builtin: `data = {...}` not found")
+    # the integrator's own (normalised) time is the symbol stored under 't' of the DAE, whatever its label
+    if "t" not in lab:
+        tv = None
+        for k_, v_ in zip(dnode.keys, dnode.values) if isinstance(dnode, ast.Dict) else []:
+            if isinstance(k_, ast.Constant) and k_.value == "t" and isinstance(v_, ast.Name):
+                tv = v_.id
+        if tv is not None and any(d.kind == "assign" and is_call_to(d.value, "sym") for d in sc.defs.get(tv, [])):
+            lab["t"] = tv
     for role in ("DT", "DT_control", "t", "t0"):
         if role not in lab:
             raise AnalysisError("intg_builtin: no symbol labelled %r" % role)
     DT, DTc, tt, t0 = lab["DT"], lab["DT_control"], lab["t"], lab["t0"]
-    dnode, data = dict_literal(f, "data", n)
-    if data is None:
-        raise AnalysisError("intg_builtin: `data = {...}` not found")
     fcalls = [c for c in walk_no_nested(f.node) if isinstance(c, ast.Call) and isinstance(c.func, ast.Name) and c.func.id == f.params[1]]
     ctx.check(len(fcalls) == 1, "intg_builtin evaluates the model once", detail="model evaluations", expected="1", found=str(len(fcalls)), fi=f)
     if fcalls:
